@@ -256,17 +256,30 @@ def targetRole : Target → String
   | .self => "self"
   | .child r => kindLabel r
 
+def relayRole : Relay → Option String
+  | .none => none
+  | .viaSelf => some "font.lib<self"
+  | .viaSelfAndParent => some "font.lib<parent"
+
 /-- an entry agrees with what the source says about the methods it runs: every target the table names is reached by
 one of them (`self.dirty = …` for `self`; a write through `self.lib[…]`, `self._image`, `self.info.dirty`, or a loop
 calling a mutator on each contour / component / anchor, for the children), conversely `self` is a target whenever one of the
-methods sets `self.dirty`, and a `guarded` entry's methods all carry the comparison that returns early -/
+methods sets `self.dirty`; a `guarded` entry's methods all carry the comparison that returns early; an entry with a relay
+runs a method that posts a notification for which the Font (`viaSelf`), or the container and then the Font
+(`viaSelfAndParent`), has registered a callback that ends in `self.lib[…] = …`, and conversely a method that posts such a
+notification has an entry (same kind, same methods) with that relay -/
 def agrees (e : Entry) : Bool :=
   let fs := e.methods.filterMap (factsOf (kindLabel e.kind))
   -- methods the extractor could not decide are skipped here and listed in the evidence
   fs.length < e.methods.length ||
   ((e.targets.all fun t => fs.any fun f => f.reaches.contains (targetRole t)) &&
    (!(fs.any fun f => f.reaches.contains "self") || e.targets.contains .self) &&
-   (!e.guarded || fs.all fun f => f.guard))
+   (!e.guarded || fs.all fun f => f.guard) &&
+   (match relayRole e.relay with
+    | none => true
+    | some r => fs.any fun f => f.reaches.contains r) &&
+   (fs.all fun f => (f.reaches.filter fun r => r = "font.lib<self" || r = "font.lib<parent").all fun r =>
+      table.any fun e' => e'.kind = e.kind && e'.methods = e.methods && relayRole e'.relay = some r))
 
 /-- THE TABLE AGREES WITH THE SOURCE, wherever the extractor can decide it syntactically: checked against the AST of
 the current working tree on every run. -/
@@ -320,7 +333,7 @@ example : (applyMut demoT 2 newGlyphE false).tree.length = 13 ∧ path (applyMut
 /-- a plain setter is M-Dirty's `guardedSet` on the receiver's chain -/
 example : (setter .glyph "width").guarded = true ∧ (setter .glyph "width").targets = [.self] ∧
     (setter .glyph "width").relay = .none ∧ (setter .glyph "width").effs = [] := by decide
-/-- the extractor decides targets and guards of the whole table (the relay column is validated by correspondence) -/
+/-- the extractor decides targets, guards and relays of the whole table -/
 example : (table.filter decided).length = 108 ∧ table.length = 108 := by decide +kernel
 
 end tree
